@@ -772,7 +772,7 @@ Proof.
           rewrite Htr in Esp. discriminate. }
         rewrite (kids_loop_ref env' ct Hrok _ _ acc0 [] fields HP Ek Hdk Hf); [|intros b []|exact Erk].
         cbn [dbind]. rewrite Hht. cbn [negb andb]. rewrite andb_false_r.
-        pose proof (ref_kids_nonempty _ _ _ _ Erk (or_intror ltac:(discriminate))) as Hne.
+        assert (Hne : fields <> []) by (apply (ref_kids_nonempty _ _ _ _ Erk); right; discriminate).
         destruct fields; [exfalso; now apply Hne|]. reflexivity.
 Qed.
 
